@@ -213,7 +213,7 @@ def run(tier, seed):
     # builds start now and run while P is evaluated
     specs = [core.BuildSpec(m["name"], m["src"], kind="py", options={"extra_files": {"c22rt.py": lib_exc.RT_SOURCE}}) for m in mods]
     pool = concurrent.futures.ThreadPoolExecutor(1)
-    fut = pool.submit(core.build_many, specs, core.subdir("build"), jobs)
+    fut = pool.submit(core.build_many, specs, core.subdir("build"), jobs, 3000)
 
     # ---- P: plain CPython
     t1 = time.time()
@@ -287,6 +287,8 @@ def run(tier, seed):
 
     okmods = []
     for m, b in zip(mods, builds):
+        if not b.ok and b.stage == "timeout":
+            core.die("build of %s timed out (machine overloaded?)" % m["name"])
         if not b.ok:
             build_failures += 1
             rep.disagree({"part": "build", "stage": b.stage}, "build-failed", {"module": m["name"], "errors": b.errors[-3000:],
